@@ -81,7 +81,8 @@ def main():
     os.makedirs(out, exist_ok=True)
     for fn in os.listdir(src):
         if os.path.isfile(os.path.join(src, fn)):
-            shutil.copy(os.path.join(src, fn), os.path.join(out, fn))
+            if os.path.abspath(os.path.join(src, fn)) != os.path.abspath(os.path.join(out, fn)):
+                shutil.copy(os.path.join(src, fn), os.path.join(out, fn))
     notes = open(os.path.join(src, "notes.md")).read() if os.path.exists(os.path.join(src, "notes.md")) else ""
     meta = {
         "property": pid,
